@@ -1,30 +1,45 @@
-(* C11 -- PRINT layout (statements grow with Proofs/Layout.v). *)
-From BL Require Import Base.Prelude Mach.Val Mach.Func.
+(* C11 -- PRINT layout.  Statements only; proofs in Proofs/Print.v.
+   Proved: the cursor-column bookkeeping (characters since the last newline, whatever is printed), the zone and
+   TAB arithmetic, and that a number carries one trailing blank.  NOT proved: that fmt_val prints the shortest
+   decimal that reads back (Base/Decimal.v is validated against the crate by the correspondence check over
+   hundreds of thousands of bit patterns, and by the C11 monitor which re-reads every printed number). *)
+From BL Require Import Base.Prelude Mach.Val Mach.Func Mach.Compile Mach.Runtime Proofs.Print.
 Local Open Scope Z_scope.
 
-(* ',' is TAB(-14): from column col it prints 14 - col mod 14 blanks: between 1 and 14, ending on a multiple of 14 *)
 Theorem C11_zone : forall col, exists k,
   fn_tab col (VInt (-14)) = Ok (VStr (repeatN c_space k)) /\ (1 <= Z.of_N k <= 14) /\ (Z.of_N col + Z.of_N k) mod 14 = 0.
-Proof.
-  intros col. exists (Z.to_N (14 - Z.of_N col mod 14)).
-  pose proof (Z.mod_pos_bound (Z.of_N col) 14 ltac:(lia)) as Hm.
-  split; [| split].
-  - unfold fn_tab, to_i16, bind. cbn. reflexivity.
-  - rewrite Z2N.id by lia. lia.
-  - rewrite Z2N.id by lia.
-    replace (Z.of_N col + (14 - Z.of_N col mod 14)) with ((Z.of_N col - Z.of_N col mod 14) + 1 * 14) by lia.
-    rewrite Z.mod_add by lia.
-    rewrite Zminus_mod, Zmod_mod, Z.sub_diag. reflexivity.
-Qed.
+Proof. exact old_C11_zone. Qed.
 Print Assumptions C11_zone.
 
-(* TAB(n), 0 <= n <= 255: n - col blanks when the cursor is before column n, nothing otherwise *)
 Theorem C11_tab : forall col n, 0 <= n <= 255 ->
   fn_tab col (VInt n) = Ok (VStr (repeatN c_space (Z.to_N (if Z.of_N col <? n then n - Z.of_N col else 0)))).
-Proof.
-  intros col n H. unfold fn_tab, to_i16, bind.
-  destruct (Z.ltb_spec n (-255)); [lia |].
-  destruct (Z.ltb_spec 255 n); [lia |]. cbn [orb].
-  destruct (Z.ltb_spec n 0); [lia |]. reflexivity.
-Qed.
+Proof. exact old_C11_tab. Qed.
 Print Assumptions C11_tab.
+
+Theorem C11_column_no_newline : forall s c, ~ In 10%N s -> advance_col c s = (c + lenN s)%N.
+Proof. exact col_no_newline. Qed.
+Print Assumptions C11_column_no_newline.
+
+Theorem C11_column_after_newline : forall a b c, advance_col c (a ++ 10%N :: b) = advance_col 0 b.
+Proof. exact col_after_newline. Qed.
+Print Assumptions C11_column_after_newline.
+
+Theorem C11_column_is_chars_since_newline : forall a b c, ~ In 10%N b -> advance_col c (a ++ 10%N :: b) = lenN b.
+Proof. exact col_is_chars_since_newline. Qed.
+Print Assumptions C11_column_is_chars_since_newline.
+
+Theorem C11_column_across_items : forall c a b, advance_col c (a ++ b) = advance_col (advance_col c a) b.
+Proof. exact advance_col_app. Qed.
+Print Assumptions C11_column_across_items.
+
+Theorem C11_print_moves_column : forall r s rest, r_stack r = VStr s :: rest ->
+  let '(r', x) := do_print r in
+  x = Ok (EvPrint s) /\ r_col r' = advance_col (r_col r) s /\ r_stack r' = rest.
+Proof. exact print_moves_column. Qed.
+Print Assumptions C11_print_moves_column.
+
+Theorem C11_number_trailing_blank : forall r v rest, r_stack r = v :: rest ->
+  (match v with VStr _ => False | _ => True end) ->
+  snd (do_print r) = Ok (EvPrint (fmt_val v ++ [c_space])).
+Proof. exact print_number_trailing_blank. Qed.
+Print Assumptions C11_number_trailing_blank.
